@@ -62,7 +62,7 @@ def _row_eq(a, b):
     return all(bool(x == y) for x, y in zip(a, b))
 
 
-def model_unique(data, axis=None, return_inverse=False):
+def model_unique(data, axis=None, return_inverse=False, return_index=False):
     if axis != 0:
         raise AssertionError(f"rows are de-duplicated with axis=0 (got axis={axis!r})")
     rows = [list(r) for r in np.asarray(data, dtype=object)]
@@ -85,9 +85,12 @@ def model_unique(data, axis=None, return_inverse=False):
             if _row_eq(r, rows[j]):
                 inv.append(k)
                 break
+    out = (D,)
+    if return_index:  # numpy's order of the optional results: index, inverse
+        out += (np.array(order, dtype=int),)
     if return_inverse:
-        return D, np.array(inv, dtype=int)
-    return D
+        out += (np.array(inv, dtype=int),)
+    return out if len(out) > 1 else D
 
 
 def validate_unique_model():
@@ -169,6 +172,43 @@ def body_membership(ctx, n1, n2, d, k, rebuild=False):
     ctx.witness("with-duplicates" if m < n1 + n2 else "all-distinct")
     if n1 != n2:
         ctx.witness("unequal-sizes")
+
+
+def body_membership_dtypes(ctx, first_int):
+    """samples of different numeric dtypes (an integer-typed reference with a float test batch, and the reverse): real
+    typed arrays cannot hold proxies, so the float rows are picked from a small alphabet by solver-driven choices (one per
+    cell) - integer-valued and fractional values, duplicates of the other sample included (seed C10-9 cast the second
+    sample to the dtype of the first)"""
+    M = importlib.import_module("menelaus.partitioners.NNSpacePartitioner")
+    ints = np.array([[0, 1], [1, 1], [2, 0]], dtype=np.int64)
+    alphabet = [0.0, 0.5, 1.0, 1.5]
+    rows = []
+    for i in range(2):
+        row = []
+        for j in range(2):
+            k = ctx.int(f"pick{i}_{j}")
+            ctx.assume(between(0, k, len(alphabet) - 1))
+            row.append(alphabet[int(k)])
+        rows.append(row)
+    floats = np.array(rows, dtype=np.float64)
+    s1, s2 = (ints, floats) if first_int else (floats, ints)
+    with rebind(M, NearestNeighbors=FakeNN):
+        p = M.NNSpacePartitioner(2)
+        p.build(s1, s2)
+    D = np.asarray(p.D, dtype=float)
+    m = len(D)
+    for r in [list(map(float, r)) for r in s1] + [list(map(float, r)) for r in s2]:
+        ctx.prove(any(list(D[i]) == r for i in range(m)), "union-contains-every-point")
+    for i in range(m):
+        in1 = any(list(D[i]) == list(map(float, r)) for r in s1)
+        in2 = any(list(D[i]) == list(map(float, r)) for r in s2)
+        ctx.prove(in1 or in2, "union-has-no-foreign-point")
+        ctx.prove((p.v1[i] == 1.0) == in1, "v1-marks-exactly-the-first-sample")
+        ctx.prove((p.v2[i] == 1.0) == in2, "v2-marks-exactly-the-second-sample")
+    ctx.prove(len({tuple(r) for r in D.tolist()}) == m, "union-is-deduplicated")
+    if any(v != int(v) for v in floats.reshape(-1)):
+        ctx.witness("fractional-values")
+    ctx.witness("checked")
 
 
 def body_distance(ctx, m, v1, v2):
@@ -308,6 +348,9 @@ def jobs(tier):
                 out.append(Job(f"membership-{n1}x{n2}-d{d}", "checks.c10:body_membership",
                                {"n1": n1, "n2": n2, "d": d, "k": 2 if (n1 + n2) % 2 else n1 + n2},
                                expect=exp, opts={"validate": 1}))
+    for first_int in (True, False):
+        out.append(Job(f"membership-mixed-dtypes-int-first{int(first_int)}", "checks.c10:body_membership_dtypes",
+                       {"first_int": first_int}, expect=("checked", "fractional-values"), opts={"validate": 1}))
     for n1, n2, d in ((1, 2, 1), (2, 1, 1)) + (() if q else ((2, 2, 1), (1, 3, 1))):
         out.append(Job(f"membership-rebuild-{n1}x{n2}-d{d}", "checks.c10:body_membership",
                        {"n1": n1, "n2": n2, "d": d, "k": 2, "rebuild": True},
